@@ -27,6 +27,6 @@ m = dict(
     engines=[dict(name="pyvc", path="pyvc/", serves_properties=[c["property_id"] for c in checks],
                   kind_free_text="own VC generator: symbolic execution of the extracted Python AST against sidecar contracts (pre/post, exact raises, loop invariants, frames, lemmas); back ends z3 5.1, cvc5 1.0.3, z3 4.8.12")],
     checks=checks, not_applicable=na,
-    notes="fix: commits in /repo: see known_findings.json. Exit codes of ./check: 0 held, 1 violation, 2 undecided, 3 checker crash.")
+    notes="fix: commits in /repo: see known_findings.json. Exit codes of ./check: 0 held on everything explored (with a PROOF-INCOMPLETE line when part of the proof was undecided -- never refuted -- and the bounded stand-ins found no failing input; PYVC_STRICT=1 turns that into 2), 1 violation, 2 undecided, 3 checker crash. design_ref: DESIGN.md sections 4 (plan) and 10 (as built).")
 json.dump(m, open(os.path.join(ROOT, "MANIFEST.json"), "w"), indent=1)
 print("claimed", [c["property_id"] for c in checks], "not claimed", len(na))
